@@ -12,9 +12,9 @@ import (
 	"google.golang.org/protobuf/encoding/prototext"
 	"google.golang.org/protobuf/proto"
 
+	spb "github.com/openconfig/gribi/v1/proto/service"
 	"github.com/openconfig/gribigo/aft"
 	"github.com/openconfig/gribigo/rib"
-	spb "github.com/openconfig/gribi/v1/proto/service"
 
 	"verifh/internal/ev"
 	"verifh/internal/gen"
